@@ -3,6 +3,11 @@
 import json, subprocess, os
 
 BUILT = {
+ "C20": dict(cat="exploration", ref="DESIGN.md §6 C20",
+   text="The real daemon entry point serves its authorised and anonymous SSH listeners on a simulated network inside the worker; x/crypto/ssh clients with generated keys of every supported type test admission against authorized_keys files in several layouts, and on the anonymous listener send exec command lines from a grammar over the option parser's vocabulary plus shell/subsystem/pty/env requests and foreign channel types; refusal, channel output and a canary ring (incl. a canary script that records its execution) are the oracles.",
+   note="Input/configuration-quantified; built with the repository's nonamespacing tag, GOKRAZY_RSYNC_PRIVDROP=1 and the listener hook (tag verif). SSH uses crypto/rand, so event logs differ between runs while verdicts do not.",
+   tech="deterministic simulation as vehicle (in-process SSH server on a simulated network via the guarded listener hook); canary-ring and exit-status oracles"),
+
  "C01": dict(cat="exploration", ref="DESIGN.md §6 C01",
    text="Seeded deterministic-simulation search: real client and real daemon code run in one process over a scheduled simulated transport in arrangements A1-A4; hundreds (quick) to tens of thousands (thorough) of generated (tree, prior destination, options, sources, arrangement, transport personality) scenarios are judged by a reference model of selection and update rule. Evidence of absence of violations proportional to the coverage counters; not a proof.",
    note="Trusted: reference model verif/sim/model, fstree snapshotting, the simulator kernel. A4 is not schedule-controlled. Known findings listed in known_findings.json are reported as KNOWN-FINDING.",
@@ -99,7 +104,7 @@ def main():
      "setup_cmd": "./setup.sh",
      "hooks": {
        "guard": "verif",
-       "enable": "go test -c -tags verif (the worker test binary is rebuilt from /repo's working tree by ./vcheck on every check; C20 adds the repository's existing nonamespacing tag)",
+       "enable": "go test -c -tags verif[,nonamespacing] (the worker test binary is rebuilt from /repo's working tree by ./vcheck on every check; C20 adds the repository's existing nonamespacing tag)",
        "baseline_off_cmd": "cd /repo && . /verif/env.sh && go test -vet=off -count=1 -timeout 25m ./...",
        "source_commits": hook_commits,
        "add_only": True,
